@@ -27,5 +27,7 @@ for e in T:
         "missed_by_first_version_of_the_check": e.get('missed_first', False),
         "strengthening": e.get('strengthening', ""),
     }
+    if e.get('neutralised_by'):
+        meta["made_harmless_by_repair"] = {"commit": e['neutralised_by'], "note": e.get('neutralised_note', "")}
     json.dump(meta, open(p, 'w'), indent=1)
 print(len(T), "entries")
